@@ -24,7 +24,8 @@ def _arm_for(m, code):
 def _stack_effect(arm):
     def is_stack(e):
         pl = path_local(peel(e))
-        return bool(pl) and pl[0] == "stack"
+        t = (peel(e).get("ty") or "").replace("&mut ", "").replace("&", "")
+        return bool(pl) and (pl[0] == "stack" or t == "alloc::vec::Vec<usize>") and not pl[0].startswith("arg")
     push = sum(1 for c in walk_k(arm["body"], "MethodCall") if c["name"] == "push" and is_stack(c["recv"]))
     pop = sum(1 for c in walk_k(arm["body"], "MethodCall") if c["name"] in ("pop", "split_off") and is_stack(c["recv"]))
     return push, pop
